@@ -14,16 +14,16 @@ go2coq:
 
 # regenerate every translated Gallina file from /repo's current source
 gen: go2coq
-	@python3 tools/regen.py
+	@python3 tools/regen.py || echo 'WARNING: go2coq failed for some property; its ./check will report it'
 
 coq:
-	cd coq && ./mkproject.sh && timeout 3000 $(MAKE) -j16
+	cd coq && ./mkproject.sh && (timeout 3000 $(MAKE) -k -j16 || echo 'WARNING: some Coq files did not build; each ./check rebuilds and reports its own targets')
 
 # warm the Go build cache: compile every harness test binary once (tag verif)
 harness:
 	cp /repo/go.sum harness/go.sum
 	cd harness && go vet -tags verif ./... >/dev/null 2>&1 || true
-	cd harness && go test -tags verif -count=1 -run XXX_NONE ./... 
+	cd harness && (go test -tags verif -count=1 -run XXX_NONE ./... || echo 'WARNING: some harness packages did not build; each ./check reports its own')
 
 manifest:
 	python3 tools/mkmanifest.py
